@@ -1211,13 +1211,13 @@ PROPS['C17'].update(
 
 MANIFEST_TEXT = {
     'C02': dict(level_text='Deductive proof on the real code with CBMC: table lemmas and bit-trick contracts hold for all inputs without any bound; generator contracts are proved for all contents per enumerated geometry (small nd). Proof is the right level for the algebra because the property IS a per-call input/output statement; the part cbmc cannot reach (large nd as whole functions, SIMD assembly) is stated, not claimed.',
-                design_ref='DESIGN.md section 4 C02', level_note='spec/gf_spec.h; cbmc+CaDiCaL/kissat; SIMD inline assembly unverified; generator geometries nd<=5/12 only', technique='CBMC code contracts (dfcc) + assume/call/assert drivers on real raid/*.c, table-free GF(2^8) spec'),
+                design_ref='DESIGN.md section 4 C02', level_note='spec/gf_spec.h; cbmc+CaDiCaL/kissat; SIMD inline assembly unverified (only the plain-C beginning of the x86 gen3..6 functions); generator geometries nd<=5/12 only', technique='CBMC code contracts (dfcc) + assume/call/assert drivers on real raid/*.c, table-free GF(2^8) spec'),
     'C03': dict(level_text='Deductive proof on the real code: MDS minors up to order 3 for all index tuples, the raid_rec dispatch contract for all nd/np/failure lists, raid_delta_gen / rec1of1 / raid_invert / helpers for all contents per small geometry. The table-driven reconstruction loops are out of reach of the installed cbmc (simplifier defect) and are listed as not covered.',
                 design_ref='DESIGN.md section 4 C03', level_note='orders 4..6 of the MDS claim rest on the Cauchy theorem (assumption); reconstruction loops and SIMD not verified', technique='CBMC contracts/drivers on real raid/raid.c, int.c, helper.c, combo.h; symbolic-index minors on tables.c'),
     'C09': dict(level_text='Contract-level proof of the decoding primitives (all byte strings, all chunkings) gives the memory-safety half of the property for the stream layer; record decoders, CRC and replacement order are partially covered - hence level other, with the functions under contract listed.',
                 design_ref='DESIGN.md section 4 C09', level_note='OS read/write by stub; strings <= 6 bytes; record-level decoding not covered', technique='CBMC drivers on real cmdline/stream.c with arithmetic varint spec; ASan replay'),
-    'C10': dict(level_text='Encode/decode pairs are proved inverse for all values (full 32/64-bit domains); the record level of state.c is not under contract, hence level other.',
-                design_ref='DESIGN.md section 4 C10', level_note='OS read/write by stub; strings <= 6 bytes', technique='CBMC drivers on real cmdline/stream.c, round trip through ghost file'),
+    'C10': dict(level_text='Encode/decode pairs are proved inverse for all values (full 32/64-bit domains); every record kind of the content file (header, disk map, parity, file incl. block runs, link, directory, hole, info) is decided as writer-region / reader-region round trip within small bounds; the file-level loops and the containers are not under contract, hence level other.',
+                design_ref='DESIGN.md section 4 C10', level_note='OS read/write by stub; strings <= 6 bytes; record round trips bounded (2-3 elements); dispatcher restated in the drivers', technique='CBMC drivers on real cmdline/stream.c, round trip through ghost file; mechanically extracted writer / reader regions of real cmdline/state.c connected through a typed event stream'),
     'C17': dict(level_text='The address map of split parity is a per-call statement and is proved for all inputs (dfcc contract, SPLIT_MAX bound complete); the resize loop carries an unbounded loop contract. Resize sequences are histories and are not claimed.',
                 design_ref='DESIGN.md section 4 C17', level_note='OS calls by stub; PATH_MAX shim; parity_chsize not yet under contract', technique='CBMC code contracts (dfcc enforce/replace, loop contract) on real cmdline/parity.c'),
 }
@@ -1256,8 +1256,8 @@ MANIFEST_TEXT.update({
                 design_ref='DESIGN.md section 4 C15', level_note='region extraction for the limit computation; qsort assumed; mark-update chain and liveness not covered', technique='CBMC contracts (dfcc replace) + driver on real cmdline/scrub.c, mechanically extracted region'),
     'C18': dict(level_text='The rule-evaluation order and the pattern classification are decided on the real elem.c for every bounded rule list against an arbitrary glob matcher; selection options and the write frame are not claimed - level other.',
                 design_ref='DESIGN.md section 4 C18', level_note='libc fnmatch assumed deterministic; bounded lists/patterns; state_filter not covered', technique='CBMC drivers on real cmdline/elem.c with fnmatch as uninterpreted truth table'),
-    'C20': dict(level_text='Narrow: reversibility of the two escaping functions every report goes through (one genuine finding recorded: tab/newline unquoted) and the bad / unsynced summary loop of status. The other report bodies are printf loops over containers and are not claimed.',
-                design_ref='DESIGN.md section 4 C20', level_note='strings <= 5 bytes; POSIX quoting rules transcribed by hand; report bodies not covered', technique='CBMC drivers on real cmdline/support.c esc_tag / esc_shell_multi with spec decoders; extracted region of cmdline/status.c'),
+    'C20': dict(level_text='Narrow: reversibility of the two escaping functions every report goes through (one genuine finding recorded: tab/newline unquoted) and the bad / unsynced summary loop of status, the digest / per-file body of dup, and the two steps of pool that decide which links and directories exist (make_link, clean_dir). The other report bodies are printf loops over containers and are not claimed.',
+                design_ref='DESIGN.md section 4 C20', level_note='strings <= 5 bytes; POSIX quoting rules transcribed by hand; report bodies not covered', technique='CBMC drivers on real cmdline/support.c esc_tag / esc_shell_multi with spec decoders; extracted regions of cmdline/status.c and dup.c; clean_dir and make_link of cmdline/pool.c extracted verbatim over stubbed file system'),
 })
 for k in ('C15', 'C18', 'C20'):
     NOT_YET.pop(k, None)
